@@ -7,6 +7,7 @@ mod c07;
 mod c09;
 mod c11;
 mod c12;
+mod c13;
 mod c14;
 mod c15;
 mod c17;
@@ -45,6 +46,7 @@ fn main() {
         "C09" => c09::run(),
         "C11" => c11::run(),
         "C12" => c12::run(),
+        "C13" => c13::run(),
         "C14" => c14::run(),
         "C15" => c15::run(),
         "C17" => c17::run(),
